@@ -8,6 +8,8 @@
               (5 #bytes) (6 #bytes) (8 #bytes) (9 #bytes) = ops 0 1 3 4 on a raw byte string
               (possibly invalid UTF-8), decoded by Model.runes_of_bytes as Go decodes it;
               (7 #bytes) = decode only: observed ((runes of []rune(s)))
+              (12) = String() (debug dump; only that it returns is observed: (0)),
+              (13) = WordsCount() alone: (count)
               (10 w) = AddWord, (11 w) = Remove WITHOUT calling WordsCount afterwards:
               observed () resp. (ret)
    observed = one entry per op:
@@ -27,7 +29,8 @@ Open Scope Z_scope.
 Inductive hop :=
 | HAdd (w : list Z) | HRemove (w : list Z) | HReset | HQuery (t : list Z) | HProbe (w : list Z)
 | HDecode (r : list Z)
-| HAddQ (w : list Z) | HRemoveQ (w : list Z).
+| HAddQ (w : list Z) | HRemoveQ (w : list Z)
+| HString | HCount.
 
 Definition hop_of (s : sx) : option hop :=
   match s with
@@ -41,6 +44,8 @@ Definition hop_of (s : sx) : option hop :=
   | SList [SInt 8; SBytes b] => Some (HQuery (runes_of_bytes (map Z.of_N b)))
   | SList [SInt 9; SBytes b] => Some (HProbe (runes_of_bytes (map Z.of_N b)))
   | SList [SInt 7; SBytes b] => Some (HDecode (runes_of_bytes (map Z.of_N b)))
+  | SList [SInt 12] => Some HString
+  | SList [SInt 13] => Some HCount
   | SList [SInt 10; w] => option_map HAddQ (sx_ints w)
   | SList [SInt 11; w] => option_map HRemoveQ (sx_ints w)
   | _ => None
@@ -60,6 +65,8 @@ Fixpoint corr (t : hashtrie) (ops : list hop) (obs : list sx) : verdict :=
           let '(t', r) := remove w t in
           vjoin (check_that (Bool.eqb r (ret =? 1)) (VMismatch 2))
          (vjoin (check_that (size t' =? cnt) (VMismatch 1)) (corr t' ops' obs'))
+      | HString, SList [SInt 0] => corr t ops' obs'
+      | HCount, SList [SInt cnt] => vjoin (check_that (size t =? cnt) (VMismatch 1)) (corr t ops' obs')
       | HAddQ w, SList [] => corr (add_word w t) ops' obs'
       | HRemoveQ w, SList [SInt ret] =>
           let '(t', r) := remove w t in
@@ -108,6 +115,9 @@ Fixpoint prop (d : list (list Z)) (lastrm : option (list Z)) (ops : list hop) (o
           let d' := dict_remove w d in
           vjoin (check_that (Bool.eqb (ret =? 1) (wmem w d)) (VPropFail 2))
          (vjoin (check_that (cnt =? Z.of_nat (length d')) (VPropFail 3)) (prop d' (Some w) ops' obs'))
+      | HString, SList [SInt 0] => prop d lastrm ops' obs'
+      | HCount, SList [SInt cnt] =>
+          vjoin (check_that (cnt =? Z.of_nat (length d)) (VPropFail 3)) (prop d lastrm ops' obs')
       | HAddQ w, SList [] => prop (dict_add w d) None ops' obs'
       | HRemoveQ w, SList [SInt ret] =>
           vjoin (check_that (Bool.eqb (ret =? 1) (wmem w d)) (VPropFail 2))
